@@ -480,13 +480,35 @@ fn run_eval(fields: &[&str], cases: &mut impl Write, out: &mut impl Write) {
             fields[6]
         )
         .unwrap();
+        if !mode.contains('n') {
+            // the same case for the specification-level oracle
+            writeln!(
+                cases,
+                "EVAL\t{id}#o\t{mode}o\t{}\t{}\t{k}\t{names}\t{upd}\t{unit}\t{}\t{}",
+                w.p(),
+                w.n(),
+                if ctx_model.is_empty() { "-".to_string() } else { ctx_model.join(",") },
+                fields[6]
+            )
+            .unwrap();
+        }
     }
+
+    writeln!(out, "{id} INFO {} {}", w.p(), w.n()).unwrap();
 
     // run the implementation
     let fs: Vec<&str> = formulas.iter().map(|s| s.as_str()).collect();
     let graph = &w.graph;
     let order: Vec<BddVariable> = if sanitize {
-        model_order(&graph.symbolic_context().as_canonical_context(), false)
+        // the canonical context may order its parameter variables differently:
+        // match them with the model order by name
+        let canon = graph.symbolic_context().as_canonical_context();
+        let ext_set = graph.symbolic_context().bdd_variable_set();
+        let can_set = canon.bdd_variable_set();
+        w.order_pn
+            .iter()
+            .map(|v| can_set.var_by_name(ext_set.name_of(*v).as_str()).unwrap())
+            .collect()
     } else {
         w.order_full.clone()
     };
